@@ -31,6 +31,8 @@ type ItemSpec struct {
 
 func Str(s string) ItemSpec { return ItemSpec{K: "str", B: []byte(s), Q: fmt.Sprintf("%q", s)} }
 
+var sharedChan = make(chan int)
+
 type valStringer struct{ s string }
 
 func (v valStringer) String() string { return v.s }
@@ -79,7 +81,9 @@ func (it ItemSpec) Make() (interface{}, *objData) {
 	case "strerr":
 		return strErr(it.B), nil
 	case "chan":
-		return make(chan int), nil
+		// one shared channel: %v of a channel is its address, and the same spec
+		// must give the same text every time it is made
+		return sharedChan, nil
 	}
 	panic("unknown item kind " + it.K)
 }
